@@ -1,0 +1,72 @@
+//go:build verif
+
+package cluster
+
+import (
+	"sort"
+	"sync/atomic"
+
+	"github.com/kercylan98/minotaur/engine/vivid"
+	"github.com/kercylan98/minotaur/engine/vivid/cluster/internal/cm"
+)
+
+// VerifManager builds the cluster manager actor (drillmasterActor) for a plain vivid.ActorSystem,
+// without memberlist. It is a vivid.ActorProvider: spawn it with system.ActorOf(manager, ...).
+// Constructor and accessors for the verification harness in /verif; compiled only with build tag
+// verif, nothing of the shipped code is changed.
+type VerifManager struct {
+	sys      *ActorSystem
+	provided atomic.Int64
+	last     atomic.Pointer[drillmasterActor]
+}
+
+// VerifNewManager creates the provider; configure declares the abilities through the public
+// ActorSystemConfiguration.WithAbility.
+func VerifNewManager(system *vivid.ActorSystem, configure func(config *ActorSystemConfiguration)) *VerifManager {
+	config := newActorSystemConfiguration()
+	if configure != nil {
+		configure(config)
+	}
+	return &VerifManager{sys: &ActorSystem{ActorSystem: system, config: config}}
+}
+
+// Provide returns a new manager actor exactly as ActorSystem.start does (newDrillmasterActor).
+func (m *VerifManager) Provide() vivid.Actor {
+	d := newDrillmasterActor(m.sys)
+	m.last.Store(d)
+	m.provided.Add(1)
+	return d
+}
+
+// Provided is the number of manager incarnations created so far (1 + number of restarts).
+func (m *VerifManager) Provided() int64 {
+	return m.provided.Load()
+}
+
+// Members is a sorted snapshot (ability, identity, logical address) of the members table of the
+// current manager incarnation. Read-only; call it from the manager's own turn
+// (vivid.ActorSystem.ExecLocalFunc on the manager's reference), the table belongs to the actor.
+func (m *VerifManager) Members() [][3]string {
+	d := m.last.Load()
+	if d == nil {
+		return nil
+	}
+	var out [][3]string
+	for ability, identities := range d.members {
+		for identity, ref := range identities {
+			out = append(out, [3]string{ability, identity, ref.GetLogicalAddress()})
+		}
+	}
+	sort.Slice(out, func(i, j int) bool {
+		if out[i][0] != out[j][0] {
+			return out[i][0] < out[j][0]
+		}
+		return out[i][1] < out[j][1]
+	})
+	return out
+}
+
+// VerifActorOfMessage is the request the manager understands (cm.ActorOf is internal).
+func VerifActorOfMessage(identity, ability string) vivid.Message {
+	return &cm.ActorOf{Identity: identity, Ability: ability}
+}
